@@ -92,6 +92,19 @@ Proof. intros s0 st n k v H. unfold set_node_attr. fr. Qed.
 Lemma aux_set_node_attr : forall st n k v, aux_eq st (set_node_attr st n k v).
 Proof. intros. apply aux_set_node_attr', aux_refl. Qed.
 
+Lemma aux_del_node_attr' : forall s0 st n k, aux_eq s0 st -> aux_eq s0 (del_node_attr st n k).
+Proof. intros s0 st n k H. unfold del_node_attr. fr. Qed.
+Lemma aux_del_node_attr : forall st n k, aux_eq st (del_node_attr st n k).
+Proof. intros. apply aux_del_node_attr', aux_refl. Qed.
+
+Lemma aux_apply_attr' : forall s0 st n kv, aux_eq s0 st -> aux_eq s0 (apply_attr st n kv).
+Proof.
+  intros s0 st n kv H. unfold apply_attr.
+  destruct (snd kv); first [apply aux_del_node_attr' | apply aux_set_node_attr']; exact H.
+Qed.
+Lemma aux_apply_attr : forall st n kv, aux_eq st (apply_attr st n kv).
+Proof. intros. apply aux_apply_attr', aux_refl. Qed.
+
 Lemma aux_set_edge_attr' : forall s0 st u v k x, aux_eq s0 st -> aux_eq s0 (set_edge_attr st u v k x).
 Proof. intros s0 st u v k x H. unfold set_edge_attr. fr. Qed.
 Lemma aux_set_edge_attr : forall st u v k x, aux_eq st (set_edge_attr st u v k x).
@@ -103,7 +116,8 @@ Lemma aux_set_pixels : forall st px v, aux_eq st (rstate (set_pixels st px v)).
 Proof. intros. apply aux_set_pixels', aux_refl. Qed.
 
 Ltac fr_lem ::= first [ apply aux_upd_g' | apply aux_upd_seg' | apply aux_upd_bk'
-  | apply aux_set_node_attr' | apply aux_set_edge_attr' | apply aux_set_pixels' ].
+  | apply aux_set_node_attr' | apply aux_del_node_attr' | apply aux_apply_attr'
+  | apply aux_set_edge_attr' | apply aux_set_pixels' ].
 
 Lemma aux_rp_update' : forall s0 st n, aux_eq s0 st -> aux_eq s0 (rp_update st n).
 Proof. intros s0 st n H. unfold rp_update. cbv zeta. fr. Qed.
@@ -116,7 +130,8 @@ Lemma aux_iou_update_edges : forall st es, aux_eq st (iou_update_edges st es).
 Proof. intros. apply aux_iou_update_edges', aux_refl. Qed.
 
 Ltac fr_lem ::= first [ apply aux_upd_g' | apply aux_upd_seg' | apply aux_upd_bk'
-  | apply aux_set_node_attr' | apply aux_set_edge_attr' | apply aux_set_pixels'
+  | apply aux_set_node_attr' | apply aux_del_node_attr' | apply aux_apply_attr'
+  | apply aux_set_edge_attr' | apply aux_set_pixels'
   | apply aux_rp_update' | apply aux_iou_update_edges' ].
 
 (* ---------- basic actions ---------- *)
@@ -203,7 +218,8 @@ Lemma aux_do_upd_track : forall st start newT newL, aux_eq st (rstate (do_upd_tr
 Proof. intros. apply aux_do_upd_track', aux_refl. Qed.
 
 Ltac fr_lem ::= first [ apply aux_upd_g' | apply aux_upd_seg' | apply aux_upd_bk'
-  | apply aux_set_node_attr' | apply aux_set_edge_attr' | apply aux_set_pixels'
+  | apply aux_set_node_attr' | apply aux_del_node_attr' | apply aux_apply_attr'
+  | apply aux_set_edge_attr' | apply aux_set_pixels'
   | apply aux_rp_update' | apply aux_iou_update_edges'
   | apply aux_do_add_node' | apply aux_do_del_node' | apply aux_do_add_edge' | apply aux_do_del_edge'
   | apply aux_do_upd_attrs' | apply aux_do_upd_seg' | apply aux_do_upd_track' ].
@@ -253,7 +269,8 @@ Lemma aux_inv_action : forall st a, aux_eq st (rstate (inv_action st a)).
 Proof. intros. apply aux_inv_action', aux_refl. Qed.
 
 Ltac fr_lem ::= first [ apply aux_upd_g' | apply aux_upd_seg' | apply aux_upd_bk'
-  | apply aux_set_node_attr' | apply aux_set_edge_attr' | apply aux_set_pixels'
+  | apply aux_set_node_attr' | apply aux_del_node_attr' | apply aux_apply_attr'
+  | apply aux_set_edge_attr' | apply aux_set_pixels'
   | apply aux_rp_update' | apply aux_iou_update_edges'
   | apply aux_do_add_node' | apply aux_do_del_node' | apply aux_do_add_edge' | apply aux_do_del_edge'
   | apply aux_do_upd_attrs' | apply aux_do_upd_seg' | apply aux_do_upd_track'
@@ -311,7 +328,8 @@ Lemma aux_user_delete_edge_nested' : forall s0 st u v,
 Proof. intros s0 st u v H. unfold user_delete_edge. apply aux_top_wrap_false', aux_user_delete_edge_core', H. Qed.
 
 Ltac fr_lem ::= first [ apply aux_upd_g' | apply aux_upd_seg' | apply aux_upd_bk'
-  | apply aux_set_node_attr' | apply aux_set_edge_attr' | apply aux_set_pixels'
+  | apply aux_set_node_attr' | apply aux_del_node_attr' | apply aux_apply_attr'
+  | apply aux_set_edge_attr' | apply aux_set_pixels'
   | apply aux_rp_update' | apply aux_iou_update_edges'
   | apply aux_do_add_node' | apply aux_do_del_node' | apply aux_do_add_edge' | apply aux_do_del_edge'
   | apply aux_do_upd_attrs' | apply aux_do_upd_seg' | apply aux_do_upd_track'
@@ -343,7 +361,8 @@ Lemma aux_udn_orphans : forall os s acc, aux_eq s (rstate (udn_orphans os s acc)
 Proof. intros. apply aux_udn_orphans', aux_refl. Qed.
 
 Ltac fr_lem ::= first [ apply aux_upd_g' | apply aux_upd_seg' | apply aux_upd_bk'
-  | apply aux_set_node_attr' | apply aux_set_edge_attr' | apply aux_set_pixels'
+  | apply aux_set_node_attr' | apply aux_del_node_attr' | apply aux_apply_attr'
+  | apply aux_set_edge_attr' | apply aux_set_pixels'
   | apply aux_rp_update' | apply aux_iou_update_edges'
   | apply aux_do_add_node' | apply aux_do_del_node' | apply aux_do_add_edge' | apply aux_do_del_edge'
   | apply aux_do_upd_attrs' | apply aux_do_upd_seg' | apply aux_do_upd_track'
@@ -371,7 +390,8 @@ Lemma aux_uan_cut : forall es s acc, aux_eq s (rstate (uan_cut es s acc)).
 Proof. intros. apply aux_uan_cut', aux_refl. Qed.
 
 Ltac fr_lem ::= first [ apply aux_upd_g' | apply aux_upd_seg' | apply aux_upd_bk'
-  | apply aux_set_node_attr' | apply aux_set_edge_attr' | apply aux_set_pixels'
+  | apply aux_set_node_attr' | apply aux_del_node_attr' | apply aux_apply_attr'
+  | apply aux_set_edge_attr' | apply aux_set_pixels'
   | apply aux_rp_update' | apply aux_iou_update_edges'
   | apply aux_do_add_node' | apply aux_do_del_node' | apply aux_do_add_edge' | apply aux_do_del_edge'
   | apply aux_do_upd_attrs' | apply aux_do_upd_seg' | apply aux_do_upd_track'
@@ -403,7 +423,8 @@ Lemma aux_user_update_attrs_core : forall st n new, aux_eq st (rstate (user_upda
 Proof. intros. apply aux_user_update_attrs_core', aux_refl. Qed.
 
 Ltac fr_lem ::= first [ apply aux_upd_g' | apply aux_upd_seg' | apply aux_upd_bk'
-  | apply aux_set_node_attr' | apply aux_set_edge_attr' | apply aux_set_pixels'
+  | apply aux_set_node_attr' | apply aux_del_node_attr' | apply aux_apply_attr'
+  | apply aux_set_edge_attr' | apply aux_set_pixels'
   | apply aux_rp_update' | apply aux_iou_update_edges'
   | apply aux_do_add_node' | apply aux_do_del_node' | apply aux_do_add_edge' | apply aux_do_del_edge'
   | apply aux_do_upd_attrs' | apply aux_do_upd_seg' | apply aux_do_upd_track'
@@ -429,7 +450,8 @@ Lemma aux_rollback : forall l s, aux_eq s (rstate (rollback l s)).
 Proof. intros. apply aux_rollback', aux_refl. Qed.
 
 Ltac fr_lem ::= first [ apply aux_upd_g' | apply aux_upd_seg' | apply aux_upd_bk'
-  | apply aux_set_node_attr' | apply aux_set_edge_attr' | apply aux_set_pixels'
+  | apply aux_set_node_attr' | apply aux_del_node_attr' | apply aux_apply_attr'
+  | apply aux_set_edge_attr' | apply aux_set_pixels'
   | apply aux_rp_update' | apply aux_iou_update_edges'
   | apply aux_do_add_node' | apply aux_do_del_node' | apply aux_do_add_edge' | apply aux_do_del_edge'
   | apply aux_do_upd_attrs' | apply aux_do_upd_seg' | apply aux_do_upd_track'
